@@ -1440,6 +1440,10 @@ class Router(NetworkNode, discriminator="router"):
         :param frame: The frame to be routed or forwarded.
         :param from_network_interface: The network interface from which the frame originated.
         """
+        # link-layer broadcasts (ARP requests for other stations, subnet broadcasts) are never routed
+        if frame.is_broadcast:
+            return
+
         # check if frame is addressed to this Router but has failed to be received by a service of application at the
         # receive_frame stage
         if frame.ip:
